@@ -160,6 +160,8 @@ func redactFindEmailEnd(src string, atIndex int) int {
 }
 
 func redactEmailCheckNumber(s string) bool {
+	// dots after the last digit (the end of a sentence) are not part of the number
+	s = strings.TrimRight(s, ".")
 	// purely numeric means no letter anywhere, not only digits at both ends
 	for i := 0; i < len(s); i++ {
 		if c := s[i]; (c >= 'a' && c <= 'z') || (c >= 'A' && c <= 'Z') {
